@@ -134,8 +134,8 @@ def gen_lines(ctx):
             if ln and not ln.startswith('#'):
                 lines.append('case %d %s' % (k, ln)); k += 1
     for c in DFS_SMALL + ([] if ctx.quick else DFS_THOROUGH):
-        lines.append('case %d %s | dfs %d' % (k, c, 1500 if ctx.quick else 150000)); k += 1
-    for _ in range(450 if ctx.quick else 12000):
+        lines.append('case %d %s | dfs %d' % (k, c, 1500 if ctx.quick else 8000)); k += 1
+    for _ in range(350 if ctx.quick else 4000):
         lines.append('case %d %s | rng %d' % (k, gen_case(rng, big=rng.chance(1, 4)), rng.next() % 1000000007)); k += 1
     return lines
 
@@ -230,6 +230,24 @@ def oracle_run(ops, impl):
     return None
 
 
+def add_harness_viols(res, viols):
+    """`!viol C29 <tag> [case k <spec> | <policy>] text` lines of the harness: one per tag, with the replayable case"""
+    seen = set(v['key'] for v in res.violations)
+    for v in viols:
+        t = v.get('what', '')
+        key = ' '.join(t.split()[:2]) if t.startswith('C29') else v.get('key', t)
+        if key in seen:
+            continue
+        seen.add(key)
+        case = ''
+        if '[' in t and ']' in t:
+            case = t[t.index('[') + 1:t.index(']')]
+            w = case.split(' ', 2)
+            if w[0] == 'case' and len(w) == 3:
+                case = w[2]
+        res.violations.append({'key': key, 'what': t, 'case': case})
+
+
 def run(ctx, res, lines=None):
     exe = ctx.path('C29')
     ok, log = pv.cc_harness(os.path.join(pv.ROOT, 'harness', 'C29.c'), exe, ctx.build)
@@ -238,6 +256,7 @@ def run(ctx, res, lines=None):
     replaying = lines is not None
     lines = lines or gen_lines(ctx)
     ops, impl, model, stats = pv.differential(ctx, res, [exe], 'pv_C29', stdin='\n'.join(lines) + '\n', timeout=3000)
+    harness_viols, res.violations = res.violations, []     # re-added (deduplicated, with their replayable case) after the oracle's own
     runs, cur = [], None
     for i, o in enumerate(ops):
         if o.startswith('case'):
@@ -263,14 +282,20 @@ def run(ctx, res, lines=None):
         f = oracle_run(ro, ri)
         sched = ' '.join(o.split()[1] for o in ro if o.startswith('step'))
         case = ro[0].split(' ', 2)[2] + ' | replay ' + sched
-        if f and f not in seen_v:
-            seen_v.add(f)
-            res.violations.append({'key': 'C29 ' + kind + ': ' + f, 'what': f, 'case': case, 'trace': ri[-12:]})
+        if f:
+            import re
+            key = 'C29 ' + kind + ': ' + re.sub(r'[0-9]+', 'N', f.split(' (')[0].split(':')[0])
+            if key not in seen_v:
+                seen_v.add(key)
+                res.violations.append({'key': key, 'what': f, 'case': case, 'trace': ri[-12:]})
         if len(ro) > 5:
             res.nontrivial(case)
     res.evaluations = nsched
+    add_harness_viols(res, harness_viols)
     # free-running stress: the property oracle on the real code with 16 (and fewer) threads
-    rounds = 150 if ctx.quick else 6000
+    rounds = 150 if ctx.quick else 3000
+    if res.disagreements:
+        rounds *= 10          # correspondence broken: search harder for a concrete failing execution
     if replaying:
         rounds = 0
     if rounds:
@@ -280,9 +305,7 @@ def run(ctx, res, lines=None):
         stats.update(st2)
         if rc != 0:
             res.violations.append({'key': 'C29 stress harness exit %d' % rc, 'what': 'free-running harness exited with %d: %s' % (rc, err[-500:]), 'case': sl[0]})
-        for v in viols[:10]:
-            key = ' '.join(v.split()[:2])
-            res.violations.append({'key': key, 'what': v, 'case': v})
+        add_harness_viols(res, [{'key': v, 'what': v} for v in viols])
     res.traces_validated = nsched
     res.rule = ('each evaluation = one complete schedule of 1-16 threads running their operation lists on a real future (base / countable / data-copy with nested futures) under the cooperative '
                 'scheduler, replayed step by step on the Lean machine and judged by the property oracle; exhaustive DFS over the non-stuttering schedules of the listed small configurations, '
